@@ -84,7 +84,7 @@ def key_obj(key):
 @st.composite
 def case_strategy(draw):
     op = draw(st.sampled_from(["cnum", "cseq", "cmat", "cblocks", "get1", "get2", "set1", "set2", "bin", "bin", "bin", "rbin",
-                               "pow", "mod", "unary", "resize", "builtin", "elem", "inplace", "inplace"]))
+                               "pow", "mod", "imod", "unary", "resize", "builtin", "elem", "inplace", "inplace"]))
     c = dict(op=op)
     if op == "cnum":
         c.update(x=draw(number_st()), size=draw(st.one_of(st.none(), st.tuples(st.integers(0, 3), st.integers(0, 3)))),
@@ -171,6 +171,10 @@ def case_strategy(draw):
         A = draw(mat_st(tc=draw(st.sampled_from("id"))))
         A["v"] = [abs(v) for v in A["v"]]
         c.update(A=A, c=draw(st.sampled_from([1, 2, 3, 2.0, 1.5])), as_matrix=draw(st.booleans()))
+    if op == "imod":
+        A = draw(mat_st(tc=draw(st.sampled_from("id"))))
+        A["v"] = [abs(v) for v in A["v"]]
+        c.update(A=A, c=draw(st.sampled_from([1, 2, 3, 2.0, 1.5, 0, 0.0])), as_matrix=draw(st.booleans()))
     if op == "unary":
         c.update(A=draw(mat_st()), f=draw(st.sampled_from(["neg", "pos", "abs", "T", "H", "trans", "ctrans", "real", "imag"])))
     if op == "resize":
@@ -417,6 +421,47 @@ def oracle(case, stats=None):
             t = rd.promote(Am.tc, rd.tc_of_number(c_))
             return MM(t, Am.m, Am.n, [rd.conv(math.fmod(v, c_) if t == "d" else v % c_, t) for v in Am.v])
         out = check_result(case, mfn, lambda: A % cm, {"operands": [A]})
+    elif op == "imod":
+        # in-place remainder: allowed exactly when the type does not change; division by zero must leave A intact
+        A, Am = to_cvx(case["A"]), to_model(case["A"])
+        c_ = case["c"]
+        cm = matrix(c_) if case["as_matrix"] else c_
+        alias, before = A, list(A)
+        t = rd.promote(Am.tc, rd.tc_of_number(c_))
+        box = {"A": A}
+        try:
+            a = box["A"]
+            a %= cm
+            box["A"] = a
+            err = None
+        except EXC as e:
+            err = e
+        churn = [matrix(7, (2, 2)) for _ in range(8)]         # reuse of freed storage would show up in A
+        del churn
+        if c_ == 0:
+            if t == Am.tc and len(before) and not isinstance(err, ZeroDivisionError):
+                raise Violation("A %%= 0 on a %r matrix: %r instead of ZeroDivisionError" % (Am.tc, err))
+            if list(alias) != before:
+                raise Violation("A %%= 0 changed the matrix: %r -> %r" % (before, list(alias)))
+            out = "refused"
+        elif t != Am.tc:
+            if err is None and alias.typecode != Am.tc:
+                raise Violation("A %%= %r changed the typecode of A in place from %r to %r" % (c_, Am.tc, alias.typecode))
+            if not isinstance(err, TypeError):
+                raise Violation("A %%= %r on a %r matrix would change the type: expected TypeError, got %r" % (c_, Am.tc, err))
+            if list(alias) != before:
+                raise Violation("refused A %%= %r changed the matrix" % (c_,))
+            out = "refused"
+        else:
+            if err is not None:
+                raise Violation("A %%= %r raised %s: %s" % (c_, type(err).__name__, err))
+            if box["A"] is not alias:
+                raise Violation("in-place remainder created a new object")
+            want = [rd.conv(math.fmod(v, c_) if t == "d" else v % c_, t) for v in Am.v]
+            if list(alias) != want or alias.typecode != Am.tc or alias.size != (Am.m, Am.n):
+                raise Violation("A %%= %r gave %r, expected %r" % (c_, list(alias), want))
+            out = "ok"
+        labels.append("imod:" + out)
     elif op == "unary":
         A, Am = to_cvx(case["A"]), to_model(case["A"])
         f = case["f"]
